@@ -17,6 +17,16 @@ SIM_NOTE = ("Trusted base: the simulated kernel / psutil.Popen fake "
             "EPERM, job-control stops. Search never proves absence.")
 
 TABLE = {
+ "C11": dict(
+  engine="E1-simworld", category="exploration", design_ref="DESIGN.md §4 C11",
+  technique="metamorphic property testing: valid circusctl-shaped requests corrupted by generated mutations (dropped/ill-typed properties, unknown names/keys, bad values at every position, bad signals, case-duplicates, conflicts, owner mismatch, broken JSON); relation = a synchronously refused request leaves the protocol-visible snapshot and kernel logs unchanged",
+  text=("For every generated corrupted request answered with an error "
+        "before handle_message returns, the snapshot (list, numwatchers, "
+        "statuses, options, numprocesses, pids, kernel spawn/signal log "
+        "lengths, event count) taken immediately before equals the one taken "
+        "immediately after, in states with and without an operation in "
+        "flight and in endpoint-owner mode."),
+  note=SIM_NOTE + " No claim is made when the daemon answers ok or later."),
  "C10": dict(
   engine="E1-simworld", category="exploration", design_ref="DESIGN.md §4 C10",
   technique="enumeration of request pairs (A x B x every progress point of A) plus Hypothesis-generated request histories; oracle = replies on the recording stream, synchronous snapshot of kernel logs around refused requests, exclusive probe after quiescence",
